@@ -157,3 +157,40 @@ package storage
 //@       forall h crypto.Hash :: {CkHas(CkVal(*txn, nodeId), h)} CkHas(CkVal(*txn, nodeId), h) <==> (exists i int :: {snapshots[i]} 0 <= i && i < len(snapshots) && snapshots[i].Hash == h)
 //@   loop 4 invariant [frame4] forall k mathint :: {badger.kvget(*txn, k)} keykind(k) != 15 && keykind(k) != 17 && k != OffKeyId(kvval(nodeId)) ==> badger.kvget(*txn, k) == old(badger.kvget(*txn, k))
 //@   loop 4 invariant [counters] CountersOK(*txn)
+
+//@ -- ═════════ the public operation: ONE badger Update around the closure; its clauses over the committed state ═════════
+//@ -- "However often a round's work is re-submitted with the same or a growing set of snapshots ... never double-counts": after a successful
+//@ -- call the checkpoint is (round, hashes(snapshots)) ([checkpoint]); a later call for the SAME round credits NFresh = the number of
+//@ -- snapshots whose hash is not in that recorded set ([lead]: CountFresh) -- 0 for the same set, exactly the new ones for a growing set --
+//@ -- and gives signing credit only to signers of those new snapshots ([sign-only-fresh]); a call for an older round changes nothing ([stale]).
+//@ spec DbCkVal(d badger.DB, n crypto.Hash) mathint = badger.dbget(d, OffKeyId(kvval(n)))
+//@ func (s *BadgerStore) WriteRoundWork
+//@   property C26
+//@   maypanic
+//@   requires s != nil && s.snapshotsDB != nil && DbCountersOK(*s.snapshotsDB) && WorksOK(snapshots)
+//@   requires [one-day] OneDay(snapshots)
+//@   requires [no-overflow] len(snapshots) > 0 ==> DbCnt(*s.snapshotsDB, LeadKeyId(kvval(nodeId), DayOf(snapshots[0].Timestamp))) + NFresh(snapshots, DbCkVal(*s.snapshotsDB, nodeId), round) < 18446744073709551616
+//@   modifies *s.snapshotsDB
+//@   ensures [atomic] err != nil ==> *s.snapshotsDB == old(*s.snapshotsDB)
+//@   ensures [stale] OffOf(old(DbCkVal(*s.snapshotsDB, nodeId))) > round ==> forall k mathint :: {badger.dbget(*s.snapshotsDB, k)} badger.dbget(*s.snapshotsDB, k) == old(badger.dbget(*s.snapshotsDB, k))
+//@   ensures [checkpoint] err == nil && OffOf(old(DbCkVal(*s.snapshotsDB, nodeId))) <= round ==> DbCkVal(*s.snapshotsDB, nodeId) != 0 && CkRound(DbCkVal(*s.snapshotsDB, nodeId)) == round &&
+//@       forall h crypto.Hash :: {CkHas(DbCkVal(*s.snapshotsDB, nodeId), h)} CkHas(DbCkVal(*s.snapshotsDB, nodeId), h) <==> (exists i int :: {snapshots[i]} 0 <= i && i < len(snapshots) && snapshots[i].Hash == h)
+//@   ensures [frame] forall k mathint :: {badger.dbget(*s.snapshotsDB, k)} (keykind(k) != 14 && keykind(k) != 15 && keykind(k) != 16 && keykind(k) != 17) || (keykind(k) == 14 && k != OffKeyId(kvval(nodeId))) ==>
+//@       badger.dbget(*s.snapshotsDB, k) == old(badger.dbget(*s.snapshotsDB, k))
+//@   ensures [no-credit] !credit || NFresh(snapshots, old(DbCkVal(*s.snapshotsDB, nodeId)), round) == 0 ==> forall k mathint :: {badger.dbget(*s.snapshotsDB, k)} keykind(k) == 15 || keykind(k) == 16 ==> badger.dbget(*s.snapshotsDB, k) == old(badger.dbget(*s.snapshotsDB, k))
+//@   ensures [lead] err == nil && credit && SignersOK(snapshots) && OffOf(old(DbCkVal(*s.snapshotsDB, nodeId))) <= round && NFresh(snapshots, old(DbCkVal(*s.snapshotsDB, nodeId)), round) > 0 ==>
+//@       DbCnt(*s.snapshotsDB, LeadKeyId(kvval(nodeId), DayOf(snapshots[0].Timestamp))) == old(DbCnt(*s.snapshotsDB, LeadKeyId(kvval(nodeId), DayOf(snapshots[0].Timestamp)))) + NFresh(snapshots, old(DbCkVal(*s.snapshotsDB, nodeId)), round)
+//@   ensures [lead-frame] forall k mathint :: {badger.dbget(*s.snapshotsDB, k)} keykind(k) == 16 && (len(snapshots) == 0 || k != LeadKeyId(kvval(nodeId), DayOf(snapshots[0].Timestamp))) ==> badger.dbget(*s.snapshotsDB, k) == old(badger.dbget(*s.snapshotsDB, k))
+//@   ensures [sign-only-fresh] forall k mathint :: {badger.dbget(*s.snapshotsDB, k)} keykind(k) == 15 && badger.dbget(*s.snapshotsDB, k) != old(badger.dbget(*s.snapshotsDB, k)) ==>
+//@       keynum(k) == DayOf(snapshots[0].Timestamp) && exists i, j int :: {snapshots[i].Signers[j]} IsFreshIdx(snapshots, old(DbCkVal(*s.snapshotsDB, nodeId)), round, i) && 0 <= j && j < len(snapshots[i].Signers) && kvval(snapshots[i].Signers[j]) == keyhid(k)
+
+//@ -- ListNodeWorks (observation point): for every listed node the pair (lead credits, signing credits) of the day, read from the committed state
+//@ func (s *BadgerStore) ListNodeWorks
+//@   property C26
+//@   requires s != nil && s.snapshotsDB != nil && DbCountersOK(*s.snapshotsDB)
+//@   modifies nothing
+//@   ensures [values] err == nil ==> result0 != nil && forall i int :: {cids[i]} 0 <= i && i < len(cids) ==> has(result0, cids[i]) &&
+//@       result0[cids[i]][0] == DbCnt(*s.snapshotsDB, LeadKeyId(kvval(cids[i]), day)) && result0[cids[i]][1] == DbCnt(*s.snapshotsDB, SignKeyId(kvval(cids[i]), day))
+//@   loop 0 invariant [txn] works != nil && txn != nil && (forall k mathint :: {badger.kvget(*txn, k)} {badger.dbget(*s.snapshotsDB, k)} badger.kvget(*txn, k) == badger.dbget(*s.snapshotsDB, k))
+//@   loop 0 invariant [values] forall i int :: {cids[i]} 0 <= i && i <= rangeindex ==> has(works, cids[i]) &&
+//@       works[cids[i]][0] == DbCnt(*s.snapshotsDB, LeadKeyId(kvval(cids[i]), day)) && works[cids[i]][1] == DbCnt(*s.snapshotsDB, SignKeyId(kvval(cids[i]), day))
